@@ -40,6 +40,10 @@ package fox
 //@   assume-at after lookupByPath#1 : sub-walk-frame: stackOK(c, path) && stackMono(c) && stackTop(c, paramCnt) && paramCnt <= len(*c.params) && paramCnt <= charsMatched && !released[box(c)] && (lazy ==> len(*c.params) <= old(len(*c.params)))
 //@   -- cut point at the backtrack step (keeps the proof of the Walk invariant on this edge small)
 //@   assert-at call (*skippedNodes).pop#1 : backtrack: (tsr ==> n != nil) && (n != nil ==> n.route != nil)
+//@   -- the first trailing-slash candidate found is the most specific one and is kept: the candidate node is
+//@   -- assigned only while there is none, the flag is raised only once
+//@   assert-at store-local n : @C01,C08 first-candidate: n == nil && new_value != nil
+//@   assert-at store-local tsr : @C01,C08 raised-once: !tsr && new_value
 //@   ensures tsr-node: result1 ==> result0 != nil
 //@   ensures leaf: result0 != nil ==> result0.route != nil
 //@   ensures live: !released[box(c)]
@@ -47,7 +51,7 @@ package fox
 //@   loop 1: invariant current != nil && 0 <= charsMatched && charsMatched <= len(path) && (charsMatched < len(path) ==> paramKeyCnt == 0) && paramCnt <= len(*c.params)
 //@   loop 1: invariant at-end: charsMatched == len(path) ==> 0 <= charsMatchedInNodeFound && charsMatchedInNodeFound <= len(current.key)
 //@   loop 1: invariant stack: stackOK(c, path) && stackMono(c) && stackTop(c, paramCnt)
-//@   loop 1: invariant tsr-n: (tsr ==> n != nil) && (n != nil ==> n.route != nil)
+//@   loop 1: invariant tsr-n: (tsr <==> n != nil) && (n != nil ==> n.route != nil)
 //@   loop 1: invariant no-wrap: paramCnt <= charsMatched
 //@   loop 1: invariant live: !released[box(c)]
 //@   loop 1: invariant lazy-len: lazy ==> len(*c.params) <= old(len(*c.params))
@@ -55,7 +59,7 @@ package fox
 //@   loop 2: invariant current != nil && 0 <= charsMatched && charsMatched <= len(path) && 0 <= i && i == charsMatchedInNodeFound && i <= len(current.key) && paramCnt <= len(*c.params)
 //@   loop 2: invariant pkc: paramKeyCnt == cnt(current.key, charsMatchedInNodeFound) && paramKeyCnt <= len(current.params)
 //@   loop 2: invariant stack: stackOK(c, path) && stackMono(c) && stackTop(c, paramCnt)
-//@   loop 2: invariant tsr-n: (tsr ==> n != nil) && (n != nil ==> n.route != nil)
+//@   loop 2: invariant tsr-n: (tsr <==> n != nil) && (n != nil ==> n.route != nil)
 //@   loop 2: invariant no-wrap: paramCnt <= charsMatched
 //@   loop 2: invariant live: !released[box(c)]
 //@   loop 2: invariant lazy-len: lazy ==> len(*c.params) <= old(len(*c.params))
@@ -64,13 +68,13 @@ package fox
 //@   loop 3: invariant pkc: paramKeyCnt < len(current.params) && 0 <= charsMatchedInNodeFound && charsMatchedInNodeFound <= len(current.key)
 //@   loop 3: invariant live-sub: !released[box(subCtx)]
 //@   loop 3: invariant stack: stackOK(c, path) && stackMono(c) && stackTop(c, paramCnt)
-//@   loop 3: invariant tsr-n: (tsr ==> n != nil) && (n != nil ==> n.route != nil)
+//@   loop 3: invariant tsr-n: (tsr <==> n != nil) && (n != nil ==> n.route != nil)
 //@   loop 3: invariant no-wrap: paramCnt <= charsMatched
 //@   loop 3: invariant live: !released[box(c)]
 //@   loop 3: invariant lazy-len: lazy ==> len(*c.params) <= old(len(*c.params))
 //@   loop 4: invariant current != nil && 0 <= charsMatched && charsMatched < len(path) && 0 <= i#2 && i#2 <= len(current.childKeys) && idx#5 == -1 && paramCnt <= len(*c.params) && 0 <= charsMatchedInNodeFound && charsMatchedInNodeFound <= len(current.key)
 //@   loop 4: invariant stack: stackOK(c, path) && stackMono(c) && stackTop(c, paramCnt)
-//@   loop 4: invariant tsr-n: (tsr ==> n != nil) && (n != nil ==> n.route != nil)
+//@   loop 4: invariant tsr-n: (tsr <==> n != nil) && (n != nil ==> n.route != nil)
 //@   loop 4: invariant no-wrap: paramCnt <= charsMatched
 //@   loop 4: invariant live: !released[box(c)]
 //@   loop 4: invariant lazy-len: lazy ==> len(*c.params) <= old(len(*c.params))
@@ -90,6 +94,8 @@ package fox
 //@   assume-at after (*Pool).Get#1 : pool-discipline: dyntypeIs(call_result, *cTx) && subCtxOK(ctxOf(call_result), c)
 //@   -- assumed: a walk on another pooled context leaves this context's buffers alone (the pool never hands out a context in use)
 //@   assume-at after lookupByPath#1 : sub-walk-frame: stackOK(c, host) && stackMono(c) && hasSkpNds == (len(*c.skipNds) > 0) && !released[box(c)] && (lazy ==> len(*c.params) <= old(len(*c.params)))
+//@   assert-at store-local n : @C01,C08,C09 first-candidate: n == nil && new_value != nil
+//@   assert-at store-local tsr : @C01,C08,C09 raised-once: !tsr && new_value
 //@   ensures tsr-node: result1 ==> result0 != nil
 //@   ensures leaf: result0 != nil ==> result0.route != nil
 //@   ensures live: !released[box(c)]
@@ -100,7 +106,7 @@ package fox
 //@   loop 2: invariant current != nil && 0 <= charsMatched && charsMatched <= len(host) && (charsMatched < len(host) ==> paramKeyCnt == 0) && paramCnt <= len(*c.params) && subCtxOK(subCtx, c)
 //@   loop 2: invariant at-end: charsMatched == len(host) ==> 0 <= charsMatchedInNodeFound && charsMatchedInNodeFound <= len(current.key)
 //@   loop 2: invariant stack: stackOK(c, host) && stackMono(c) && stackTop(c, paramCnt)
-//@   loop 2: invariant tsr-n: (tsr ==> n != nil) && (n != nil ==> n.route != nil)
+//@   loop 2: invariant tsr-n: (tsr <==> n != nil) && (n != nil ==> n.route != nil)
 //@   loop 2: invariant no-wrap: paramCnt <= charsMatched
 //@   loop 2: invariant live: !released[box(c)]
 //@   loop 2: invariant lazy-len: lazy ==> len(*c.params) <= old(len(*c.params))
@@ -108,14 +114,14 @@ package fox
 //@   loop 3: invariant current != nil && 0 <= charsMatched && charsMatched <= len(host) && 0 <= i#2 && i#2 == charsMatchedInNodeFound && i#2 <= len(current.key) && paramCnt <= len(*c.params) && subCtxOK(subCtx, c)
 //@   loop 3: invariant pkc: paramKeyCnt == cnt(current.key, charsMatchedInNodeFound) && paramKeyCnt <= len(current.params)
 //@   loop 3: invariant stack: stackOK(c, host) && stackMono(c) && stackTop(c, paramCnt)
-//@   loop 3: invariant tsr-n: (tsr ==> n != nil) && (n != nil ==> n.route != nil)
+//@   loop 3: invariant tsr-n: (tsr <==> n != nil) && (n != nil ==> n.route != nil)
 //@   loop 3: invariant no-wrap: paramCnt <= charsMatched
 //@   loop 3: invariant live: !released[box(c)]
 //@   loop 3: invariant lazy-len: lazy ==> len(*c.params) <= old(len(*c.params))
 //@   loop 3: invariant params-count: !lazy ==> len(*c.params) == paramCnt
 //@   loop 4: invariant current != nil && 0 <= charsMatched && charsMatched < len(host) && 0 <= i#3 && i#3 <= len(current.childKeys) && idx == -1 && paramCnt <= len(*c.params) && 0 <= charsMatchedInNodeFound && charsMatchedInNodeFound <= len(current.key) && subCtxOK(subCtx, c)
 //@   loop 4: invariant stack: stackOK(c, host) && stackMono(c) && stackTop(c, paramCnt)
-//@   loop 4: invariant tsr-n: (tsr ==> n != nil) && (n != nil ==> n.route != nil)
+//@   loop 4: invariant tsr-n: (tsr <==> n != nil) && (n != nil ==> n.route != nil)
 //@   loop 4: invariant no-wrap: paramCnt <= charsMatched
 //@   loop 4: invariant live: !released[box(c)]
 //@   loop 4: invariant lazy-len: lazy ==> len(*c.params) <= old(len(*c.params))
@@ -124,4 +130,4 @@ package fox
 //@   loop 5: invariant stack: stackOK(c, host) && stackMono(c)
 //@   loop 5: invariant live: !released[box(c)]
 //@   loop 5: invariant lazy-len: lazy ==> len(*c.params) <= old(len(*c.params))
-//@   loop 5: invariant tsr-n: (tsr ==> n != nil) && (n != nil ==> n.route != nil)
+//@   loop 5: invariant tsr-n: (tsr <==> n != nil) && (n != nil ==> n.route != nil)
